@@ -370,6 +370,32 @@ class Gen:
                     header = header + '\n//__ASSOC__'
             else:
                 header = 'impl%s %s %s' % (generics, ty, where)
+        # parameter renames are followed: the directive records the names the contract was written against
+        # (`params=a,b`); when the real signature has the same number of parameters under other names, the contract's
+        # identifiers are renamed accordingly (token-level) - the contract is positional, not nominal
+        if opts.get('params') is not None:
+            want = [x for x in opts['params'].split(',') if x]
+            have = self.param_names(text)
+            if have is not None and len(have) == len(want) and have != want and len(set(have)) == len(have):
+                ren = {o: n for o, n in zip(want, have) if o != n}
+                tmp = {o: '__vp_%d__' % i for i, o in enumerate(ren)}
+                new_sections = []
+                for sec in sections:
+                    sec2 = dict(sec)
+                    ls = []
+                    for ln in sec['lines']:
+                        code, sep, tail = ln.partition('//#')
+                        for o, t in tmp.items():
+                            code = re.sub(r'(?<![\w.])%s\b' % re.escape(o), t, code)
+                        for o, t in tmp.items():
+                            code = code.replace(t, ren[o])
+                        ls.append(code + sep + tail)
+                    sec2['lines'] = ls
+                    new_sections.append(sec2)
+                sections = new_sections
+                if record:
+                    self.dropped_loop_sections.append('%s: parameters of %s renamed %s: contract follows positionally' % (
+                        rel, qual, ', '.join('%s->%s' % kv for kv in ren.items())))
         # N5: name the return value
         ret = opts.get('ret', 'r')
         text = self.n5_name_return(text, ret)
@@ -571,6 +597,62 @@ class Gen:
             out.insert(k, '    ensures false, //# __canary_exit')
         sp['lines'] = out
         return sections
+
+    @staticmethod
+    def param_names(text):
+        """Names of the non-receiver parameters of the function whose source is `text` (None if a pattern is not a plain name)."""
+        masked, _ = rsx.mask(text)
+        mfn = re.search(r'\bfn\s+\w+\s*', masked)
+        po = mfn.end()
+        if masked[po] == '<':
+            # skip the generic parameter list (`->` inside `Fn(..) -> T` bounds is not a closing bracket)
+            d2 = 0
+            while po < len(masked):
+                if masked[po] == '<':
+                    d2 += 1
+                elif masked[po] == '>' and masked[po - 1] != '-':
+                    d2 -= 1
+                    if d2 == 0:
+                        po += 1
+                        break
+                po += 1
+            while masked[po].isspace():
+                po += 1
+        if masked[po] != '(':
+            return None
+        depth, j = 0, po
+        while j < len(masked):
+            if masked[j] in '([{<' and not (masked[j] == '<' and masked[j - 1] == '-'):
+                depth += 1
+            elif masked[j] in ')]}>' and not (masked[j] == '>' and masked[j - 1] in '-='):
+                depth -= 1
+                if depth == 0:
+                    break
+            j += 1
+        inner = masked[po + 1:j]
+        parts, depth, cur = [], 0, ''
+        for ch in inner:
+            if ch in '([{<':
+                depth += 1
+            elif ch in ')]}>':
+                depth -= 1
+            if ch == ',' and depth == 0:
+                parts.append(cur)
+                cur = ''
+            else:
+                cur += ch
+        if cur.strip():
+            parts.append(cur)
+        names = []
+        for prt in parts:
+            prt = prt.strip()
+            if re.match(r'^(&\s*(\'\w+\s+)?)?(mut\s+)?self\b', prt):
+                continue
+            m = re.match(r'^(?:mut\s+)?([A-Za-z_]\w*)\s*:', prt)
+            if not m:
+                return None
+            names.append(m.group(1))
+        return names
 
     def emit_section(self, qual, sec, props):
         """A clause is named by a trailing `//# name [props]` on its LAST line: the name covers every line
